@@ -661,6 +661,44 @@ pub fn run_c17(ctx: &Ctx) -> Report {
         });
         rep.merge(r);
     }
+    // a statement with a long life: what one statement has received in total (bytes, chunks,
+    // executions) must not matter - only what arrived since its last execution does.
+    // (a) volume: 18 executions of 4 MiB each (72 MiB through one statement; thorough: 40 x 8 MiB)
+    // (b) count: 70 000 executions with a few bytes of long data each (thorough: 140 000)
+    if !ctx.miri {
+        let r = par_cases(ctx, "C17", "long-life", 2, |_rng, i, rep| {
+            let mut cv = Conv::default();
+            cv.push(MCmd::Prepare(b"life".to_vec()), Some(Script::PrepOk { id: 9, params: param_cols(2), cols: vec![] }));
+            let (execs, chunk, chunks_per) = match (i, ctx.thorough) {
+                (0, false) => (18usize, 2 << 20, 2usize),
+                (0, true) => (40, 4 << 20, 2),
+                (_, false) => (70_000, 3, 1),
+                (_, true) => (140_000, 3, 1),
+            };
+            for e in 0..execs {
+                for c in 0..chunks_per {
+                    let mut data = Vec::new();
+                    stream_fill(&mut data, ctx.seed ^ 0x11fe, (e * 4 + c) as u64, chunk, false);
+                    cv.push(MCmd::LongData { id: 9, param: 0, data }, None);
+                }
+                cv.push(
+                    MCmd::Execute { id: 9, params: vec![Param { typ: wire::T_BLOB, unsigned: false, value: None, long: true }, Param { typ: wire::T_LONG, unsigned: false, value: Some(PVal::Int(e as i128)), long: false }], send_types: e == 0 || e % 7 == 3 },
+                    None,
+                );
+            }
+            let mut case = sentinel_case(&cv);
+            case.sched = crate::transport::Sched { cuts: vec![], cycle: vec![1 << 20] };
+            let obs = run_case(&case);
+            rep.evaluations += 1;
+            rep.counters.add("long_life_executions", execs as u64);
+            rep.counters.add("long_life_bytes_through_one_statement", (execs * chunks_per * chunk) as u64);
+            rep.counters.class(format!("long life: {} executions x {} chunks of {} bytes", execs, chunks_per, chunk));
+            let d = || J::obj().set("executions", execs).set("chunk_bytes", chunk).set("chunks_per_execution", chunks_per).set("outcome", obs.outcome.describe());
+            rep.sample(d());
+            judge("C17", &obs, &cv, rep, &d, true);
+        });
+        rep.merge(r);
+    }
     rep.merge(super::mega::run(ctx, "C17", 1500, 60000));
     if ctx.strict() {
         rep.require("chunks_sent", 100);
